@@ -132,7 +132,9 @@ func canonStrings(obj pdf.Object) int {
 	return n
 }
 
-func c02Case(c *kit.Case, withRejected, bigGaps bool) {
+func c02Case(c *kit.Case, withRejected, bigGaps bool) { c02CaseW(c, withRejected, bigGaps, false) }
+
+func c02CaseW(c *kit.Case, withRejected, bigGaps, widths bool) {
 	cell := -1
 	if c.Index < 4*144 {
 		cell = c.Index % 144 // every version x mode x sink x encryption cell first
@@ -140,6 +142,21 @@ func c02Case(c *kit.Case, withRejected, bigGaps bool) {
 	cfg := gen.RandomConfig(c.Rng, cell)
 	cfg.WithRejected = withRejected
 	cfg.BigGaps = bigGaps
+	if widths {
+		// offsets on both sides of 2^16 (2^24), 255/256 members of an object stream
+		cfg.MaxOps = 6 + c.Rng.Intn(20)
+		if c.Index%4 != 2 {
+			cfg.PadBytes = 1<<16 - c.Rng.Intn(3000)
+			if c.Index%16 == 3 {
+				cfg.PadBytes = 1<<24 - c.Rng.Intn(3000)
+			}
+		}
+		if c.Index%4 >= 2 {
+			cfg.WideObjStm = true
+			cfg.NoObjStm = false
+		}
+		c.R.Count("programs_at_width_boundaries", 1)
+	}
 	d, err := gen.BuildDoc(c.Rng, cfg)
 	for _, p := range d.Problems {
 		c.Violation(p.Key, p.Detail)
@@ -175,4 +192,5 @@ func TestVerifC02(t *testing.T) {
 	r.Phase("programs", r.N(20000, 600000), func(c *kit.Case) { c02Case(c, false, false) })
 	r.Phase("with-refused-calls", r.N(3000, 60000), func(c *kit.Case) { c02Case(c, true, false) })
 	r.Phase("sparse-numbering", r.N(600, 6000), func(c *kit.Case) { c02Case(c, false, true) })
+	r.Phase("width-boundaries", r.N(40, 400), func(c *kit.Case) { c02CaseW(c, false, false, true) })
 }
